@@ -628,6 +628,50 @@ class Hist(Scenario):
             self.w.git("remote", "add", "origin", origin, plain=True, tick=False)
         return origin
 
+    def op_pull(self, kind=None):
+        """The remote branch moves on (commits made in another clone) while this clone has uncommitted agent work (and, for
+        `dup`, a local commit that the remote also contains as an identical patch); `git pull` in one of its forms brings it in."""
+        rng = self.rng
+        kind = kind or rng.choice(["rebase-autostash", "rebase-autostash", "rebase-autostash-dup", "ff", "rebase-clean"])
+        base = self.current_branch() or "main"
+        origin = self.ensure_origin()
+        self.commit_all("before pull")
+        self.w.git("push", "-q", "origin", "+refs/heads/%s:refs/heads/%s" % (base, base), plain=True, tick=False)
+        other = os.path.join(self.w.root, "other-%d" % self.n)
+        self.w.git("clone", "-q", "-b", base, origin, other, plain=True, tick=False, cwd=self.w.root)
+        dup_sha = None
+        if kind == "rebase-autostash-dup":
+            # a local commit that upstream will contain too (as an identical patch, after the upstream-only commit)
+            # finding D65: in hooks mode the agent lines of such a commit are lost (upstream's copy has no note and only the wrapper
+            # maps the dropped local commit onto it); while it is open the duplicated commit is a person's
+            who = rng.choice(self.sessions) if self.profile.get("pull_dup_commit_ai", True) else "human"
+            self.do_edit(author=who, kinds=["ins"])
+            self.commit_all("local commit that upstream also has")
+            dup_sha = self.head()
+            self.w.git("push", "-q", "origin", "+%s:refs/heads/dup-src" % dup_sha, plain=True, tick=False)
+        nf = "remote%d.txt" % self.n
+        self.write(nf, [self.fresh("human", hostile=False) for _ in range(2)], repo=other)
+        self.w.git("add", "-A", plain=True, cwd=other, tick=False)
+        self.w.git("commit", "-q", "-m", "upstream-only commit", plain=True, cwd=other)
+        if dup_sha:
+            self.w.git("fetch", "-q", "origin", "dup-src", plain=True, cwd=other, tick=False)
+            self.w.git("cherry-pick", dup_sha, plain=True, cwd=other)
+        self.w.git("push", "-q", "origin", base, plain=True, cwd=other, tick=False)
+        if kind != "rebase-clean":
+            self.do_edit(author=rng.choice(self.sessions), kinds=["ins"])      # uncommitted agent work carried across the pull
+        if kind == "ff":
+            args = ["pull", "-q", "--ff-only", "--autostash", "origin", base]
+        elif kind == "rebase-clean":
+            args = ["pull", "-q", "--rebase", "origin", base]
+        else:
+            args = ["pull", "-q", "--rebase", "--autostash", "origin", base]
+        p = self.g(*args)
+        self.ops.append("pull:" + kind)
+        if self.in_progress() or self.unmerged():
+            self.finish_in_progress("rebase", decide="abort")
+        self.commit_all("after pull")
+        return kind
+
     def op_ci_rewrite(self, kind=None):
         """Server-side squash merge / rebase merge of a pushed feature branch, made by plain git (git-ai never sees it), followed by
         the CI rewrite: `git-ai ci local merge ...` or `git-ai squash-authorship <base> <new> <old>`."""
